@@ -85,25 +85,6 @@ theorem names_chunks : ∀ i, i < 16 → namesChunkOk i = true
   | 15, _ => all_of_slices4 _ _ 64 (chunk_length _ (by omega)) names_slice_15_0 names_slice_15_1 names_slice_15_2 names_slice_15_3
   | n + 16, h => absurd h (by omega)
 
-theorem exclusions_chunks : ∀ i, i < 16 → exclusionsChunkOk i = true
-  | 0, _ => exclusions_chunk_00
-  | 1, _ => exclusions_chunk_01
-  | 2, _ => exclusions_chunk_02
-  | 3, _ => exclusions_chunk_03
-  | 4, _ => exclusions_chunk_04
-  | 5, _ => exclusions_chunk_05
-  | 6, _ => exclusions_chunk_06
-  | 7, _ => exclusions_chunk_07
-  | 8, _ => exclusions_chunk_08
-  | 9, _ => exclusions_chunk_09
-  | 10, _ => exclusions_chunk_10
-  | 11, _ => exclusions_chunk_11
-  | 12, _ => exclusions_chunk_12
-  | 13, _ => exclusions_chunk_13
-  | 14, _ => exclusions_chunk_14
-  | 15, _ => exclusions_chunk_15
-  | n + 16, h => absurd h (by omega)
-
 theorem nonprefixable_slices : ∀ i, i < 16 → ∀ j, j < 3 → nonprefixableSliceOk i j = true
   | 0, _ => fun j hj => match j, hj with
     | 0, _ => nonprefixable_slice_00_0 | 1, _ => nonprefixable_slice_00_1 | 2, _ => nonprefixable_slice_00_2
@@ -240,24 +221,21 @@ theorem memN_mem {k : Name} {l : List Name} (h : memN k l = true) : k ∈ l := b
     · exact List.mem_cons_of_mem _ (ih h)
 
 /-- the per-name check, unfolded into the statements about the individual routes -/
-theorem nameCheck_parts (full : Bool) (r : NameRow) (h : nameCheck full r = true) :
-    treeOk r = true ∧ (stringOk r = true ∨ (full = false ∧ excluded r.name = true)) ∧ usOk r = true
-      ∧ topOk r = true ∧ customOk r = true := by
+theorem nameCheck_parts (r : NameRow) (h : nameCheck r = true) :
+    treeOk r = true ∧ stringOk r = true ∧ usOk r = true ∧ topOk r = true ∧ customOk r = true := by
   unfold nameCheck at h
   cases hv : refVerdict r.name with
   | unknown => simp [hv] at h
   | ambiguous => simp [hv] at h
   | unique k c =>
-    simp only [hv, Bool.and_eq_true, Bool.or_eq_true, Bool.not_eq_true'] at h
+    simp only [hv, Bool.and_eq_true, Bool.or_eq_true] at h
     obtain ⟨ht, ⟨hs, ⟨hu1, hu2⟩, hu3⟩, hc1, hc2⟩ := h
     refine ⟨ht, ?_, ?_, ?_, ?_⟩
-    · rcases hs with hs | hs
-      · exact Or.inl (by simp only [stringOk, hv, hs])
-      · exact Or.inr hs
+    · simp only [stringOk, hv, hs]
     · simp only [usOk, hv, hu1, hu2, Bool.and_self]
     · unfold topOk
       split at hu3
-      · rename_i hm; simp only [hm, if_true, hu3]
+      · rename_i hm; simp only [hm, if_true]; exact hu3
       · rename_i hm
         simp only [hm, hv, topLevelAttr]
         simp only [Bool.false_eq_true, if_false, Bool.and_eq_true]
